@@ -378,7 +378,8 @@ def scheduled(prog: Program, rep: Report):
     stores = [m for m, var, val in fa.stores() if var.endswith(".sample_counter")]
     ok = len(incs) == 1 and len(stores) == 1 and incs[0][1] is ast.Add and \
         term_to_poly(fa.sym.term(incs[0][2], incs[0][0])).const_value() == 1 and \
-        fa.conds_at(incs[0][0]) == fa.conds_at(n) and (cfg.reachable(n, incs[0][0]) or (
+        (fa.conds_at(incs[0][0]) == fa.conds_at(n) or all(c_ in fa.conds_at(n) for c_ in fa.conds_at(incs[0][0]))) and (
+            cfg.reachable(n, incs[0][0]) or (
             # ... or the index was computed from the counter as it was before the increment (a hoisted temporary)
             len(fl) == 1 and (fl[0][2] == sc or (fl[0][2][0] == "var" and incs[0][0] not in fl[0][2][2]))))
     rep.decide(ok, "G6.schedule-index", fi, "counter", "sample_counter += 1 once per scheduled call, after the index was computed",
@@ -390,6 +391,13 @@ def scheduled(prog: Program, rep: Report):
     want_s = fa.sym.term(c, n)
     ok = sval is not None and all(fa.sym.term(val, m) == sval for m, val in ctx_st) and bool(ctx_st) and (
         sval == want_s or (sval[0] == "var" and cfg.reaching().get(ss[0][0], {}).get(sval[1]) == {n}))
+    if not ok and sval is not None and all(fa.sym.term(val, m) == sval for m, val in ctx_st) and bool(ctx_st):
+        # applied == reported, but the value reaches them through a cache / several definitions one of which is the schedule's
+        # value: whether the cached value is the value of the current batch is not decided here
+        names_ = {lf[1] for lf in leaves(sval) if lf[0] == "var"} | {f"{fa.self_name}.{lf[1]}" for lf in leaves(sval) if lf[0] == "self"}
+        defs_ = [val for m, var, val in fa.stores() if var in names_ and val is not None]
+        if any(isinstance(v_, ast.Call) and isinstance(v_.func, ast.Attribute) and v_.func.attr == "get_value" for v_ in defs_):
+            ok = None
     rep.decide(ok, "G6.schedule-index", fi, "reported-strength", "scale_strength(v) and ctx[...] = v with v the schedule's value",
                "the strength applied differs from the strength reported in the context (or is not the schedule's value)",
                line=ss[0][1].lineno if ss else fi.node.lineno, clause="C15.5")
